@@ -115,6 +115,16 @@ let gen_history (seed : int) (nops : int) (ndocs : int) (profile : int) : string
     let stale_docs = List.map int_of_nat (invalidates_handles o) in
     let doc_of_handle h' = match handles.(h') with Some i -> (match doc_of !w i with Some d -> int_of_nat d | None -> -1) | None -> -1 in
     let stale = List.filter (fun h' -> h' >= ndocs && List.mem (doc_of_handle h') stale_docs) (List.init !nh (fun x -> x)) in
+    let target_docs = match o with
+      | ODocClear d | ODocShrink d -> [int_of_nat d]
+      | ODocCopy (d, _) -> [int_of_nat d]
+      | ODocSwap (d, s) -> [int_of_nat d; int_of_nat s]
+      | _ -> [] in
+    let is_doc_op = match o with ODocClear _ | ODocShrink _ | ODocCopy _ | ODocSwap _ -> true | _ -> false in
+    let unrelated = String.concat "," (List.map string_of_int (List.filter (fun h' ->
+        match handles.(h') with
+        | Some j -> if is_doc_op then not (List.mem (doc_of_handle h') target_docs) else not (related !w r j)
+        | None -> false) lh)) in
     let (w', res) = step !w o in
     w := w';
     List.iter (fun h' -> handles.(h') <- None) stale;
@@ -129,7 +139,8 @@ let gen_history (seed : int) (nops : int) (ndocs : int) (profile : int) : string
         | Some i -> (match get !w i with Some c -> Printf.sprintf "%d=%s" h' (dump_content !w c) | None -> "")
         | None -> "") lh') in
     let watch = String.concat "," (List.map string_of_int lh') in
-    Buffer.add_string out (Printf.sprintf "%s @%s ## %s|%s|%s ;; " text watch (result_string res) docs_dump hdump)
+    (* handles that the operation must leave untouched: not inside its target, not around it (computed before the step) *)
+    Buffer.add_string out (Printf.sprintf "%s %%%s @%s ## %s|%s|%s ;; " text unrelated watch (result_string res) docs_dump hdump)
   done;
   Buffer.contents out
 
